@@ -216,6 +216,27 @@ func (v Value) number() _number {
 	return num
 }
 
+// float64ToUint32 returns the integer part of a finite f modulo 2^32 (ECMA 262: 9.6,
+// steps 3 to 5); ToInt32 and ToUint16 are reinterpretations of the result.
+func float64ToUint32(f float64) uint32 {
+	if f > -0x1p63 && f < 0x1p63 {
+		// Convert to int64 before uint32 to force correct wrapping.
+		return uint32(int64(f))
+	}
+	// |f| >= 2^63 does not fit an int64: f is the integer ±m*2^shift with m the 53 bit
+	// significand and shift >= 11, and only its low 32 bits are wanted.
+	bits := math.Float64bits(f)
+	shift := (bits >> 52 & 0x7ff) - 1075
+	if shift >= 32 {
+		return 0
+	}
+	low := uint32((bits&(1<<52-1) | 1<<52) << shift)
+	if f < 0 {
+		return -low
+	}
+	return low
+}
+
 // ECMA 262: 9.5.
 func toInt32(value Value) int32 {
 	switch value := value.value.(type) {
@@ -232,8 +253,7 @@ func toInt32(value Value) int32 {
 		return 0
 	}
 
-	// Convert to int64 before int32 to force correct wrapping.
-	return int32(int64(floatValue))
+	return int32(float64ToUint32(floatValue))
 }
 
 func toUint32(value Value) uint32 {
@@ -255,8 +275,7 @@ func toUint32(value Value) uint32 {
 		return 0
 	}
 
-	// Convert to int64 before uint32 to force correct wrapping.
-	return uint32(int64(floatValue))
+	return float64ToUint32(floatValue)
 }
 
 // ECMA 262 - 6.0 - 7.1.8.
@@ -275,8 +294,7 @@ func toUint16(value Value) uint16 {
 		return 0
 	}
 
-	// Convert to int64 before uint16 to force correct wrapping.
-	return uint16(int64(floatValue))
+	return uint16(float64ToUint32(floatValue))
 }
 
 // toIntSign returns sign of a number converted to -1, 0 ,1.
